@@ -18,26 +18,32 @@ fed after the previous-frame roots it forkless-causes; any parents-first arrival
 frame-ascending complete order is closed) — that both return an Atropos return the same frame and
 the same Atropos. Derived from L2, L4, `atropos_unique` and `C10_single_election_partial`.
 
-Proved (`C01_order_independent_partial`): the corollary for block sequences. Two instances whose
-emitted `(frame, Atropos)` sequences have the same length are equal, under these explicit, named
-hypotheses that are NOT derived here:
+Proved (`C01_election_same_result`): moreover, if one closed feed makes the election return an
+Atropos, every closed feed containing the same roots of later frames — in any order, through other
+oracles for the same graph — returns the same Atropos (neither nothing nor an error).
+
+Proved (`C01_order_independent_partial`): the corollary for block sequences. The `(frame, Atropos)`
+sequences emitted by two instances are identical (same length, same entries), under these explicit,
+named hypotheses that are NOT derived here:
 * `OraclesAgree` (per instance) — the instance's forkless-cause index answers `N.FC` whatever its
   indexing order (this is C05), and its root table returns exactly the roots of `N` (C33 + C04);
   its validator set is the canonical one with total weight ≤ 2^31-1 (C12);
 * `FramesAccepted` — the frames under which the events were accepted obey the frame rule (C04);
 * `BlocksFromElections` (per instance) — every emitted block `(f, a)` is what one election for frame
-  `f`, run from `reset` over some closed feed, returned (this is L5 of DESIGN §5: the Orderer
-  restarts the election after every decision and re-feeds the known roots);
+  `f`, run from `reset` over some closed feed, returned (L5 of DESIGN §5: the Orderer restarts the
+  election after every decision and re-feeds the known roots);
+* `OpenElection` (per instance) — the election for the first frame without a block has been fed, in
+  a closed order, every root of later frames in the instance's table and has returned nothing (L5
+  again, for the election that is open when all events have been processed; it also excludes the
+  "all decided no" error, i.e. the part of "accept every event" that needs L6);
 * `FramesConsecutive` (per instance) — blocks carry the frames 1, 2, 3, … (C02, proved there at
-  model level);
-* equal length of the two block sequences.
+  model level).
+(`C01_blocks_equal_of_length` is the same without `OpenElection` but with equal lengths assumed.)
 
-Not proved: that both instances decide the same number of frames (needs the converse of the
-single-election refinement: the model returns an Atropos as soon as the rules determine one from
-the fed roots); "accept every event" (C04 + L6: not all subjects are decided no); equality of the
-cheater lists (C03/C06: cheaters are a function of the Atropos' ancestry, so they follow from equal
-Atropoi once C06 is proved); epoch transitions (sealing is a function of the decided block, C09);
-L5 itself. The `cons` correspondence stream checks all of it on the real code: 2–3 instances, each
+Not proved: L5 itself (the two hypotheses above); "accept every event" (C04 + L6: not all subjects
+are decided no); equality of the cheater lists (C03/C06: cheaters are a function of the Atropos'
+ancestry, so they follow from equal Atropoi); epoch transitions (sealing is a function of the decided
+block, C09). The `cons` correspondence stream checks all of it on the real code: 2–3 instances, each
 with its own random parents-first order, must emit identical blocks, cheaters and epoch switches,
 equal to the order-free reference.
 -/
@@ -87,8 +93,8 @@ def BlocksFromElections (I : Instance) : Prop :=
 /-- hypothesis (C02): blocks carry the frames 1, 2, 3, … -/
 def FramesConsecutive (I : Instance) : Prop := ∀ i (h : i < I.blocks.length), (I.blocks[i]).1 = i + 1
 
-/-- C01 for block sequences, with everything that is not derived as an explicit hypothesis -/
-theorem C01_order_independent_partial (N : Net) (I₁ I₂ : Instance)
+/-- block sequences of equal length are equal -/
+theorem C01_blocks_equal_of_length (N : Net) (I₁ I₂ : Instance)
     (hvalid : Valid N.nVals N.h) (hframes : N.FramesAccepted) (hbft : N.BFT)
     (horacles₁ : OraclesAgree N I₁) (horacles₂ : OraclesAgree N I₂)
     (hL5₁ : BlocksFromElections I₁) (hL5₂ : BlocksFromElections I₂)
@@ -110,39 +116,88 @@ theorem C01_order_independent_partial (N : Net) (I₁ I₂ : Instance)
   exact C01_election_order_independent N (i + 1) _ _ _ _ _ _ (setup I₁ horacles₁ _ hb₁) (setup I₂ horacles₂ _ hb₂)
     rs₁ rs₂ fc₁ fc₂ el₁ el₂ _ _ r₁ r₂
 
-/-- non-vacuity: the hypotheses are satisfiable (the one-event history `C10.exNet`, two instances
-    with the canonical oracles that have not emitted a block yet) -/
-example : ∃ (N : Net) (I : Instance), Valid N.nVals N.h ∧ N.FramesAccepted ∧ N.BFT ∧ OraclesAgree N I ∧
-    BlocksFromElections I ∧ FramesConsecutive I := by
-  open Classical in
-  refine ⟨C10.exNet, ⟨canonVals C10.exNet, fun a b => decide (C10.exNet.FC a b), rootsOf C10.exNet, []⟩, ?_⟩
-  have hv : Valid C10.exNet.nVals C10.exNet.h :=
-    Valid.snoc (h := []) Valid.nil
-      { parents_lt := (by intro p hp; cases hp), creator_lt := (by decide), seq_pos := (by decide),
-        seq_lt := (by decide), first := (by intro _ p hp; cases hp),
-        self := (by intro h; exact absurd h (by decide)) }
-  have hfa : C10.exNet.FramesAccepted := by
-    intro e he
-    have : e = 0 := by simp [C10.exNet] at he; omega
+/-- hypothesis (L5, open election): the election for the first frame without a block was fed every
+    root of later frames of the instance's table, in a closed order, and returned nothing -/
+def OpenElection (I : Instance) : Prop :=
+  I.blocks.length + 1 < 4294967296 ∧ ∃ rs el', FeedClosed I.observe I.frameRoots (I.blocks.length + 1) [] rs ∧
+    (∀ g r, r ∈ I.frameRoots g → I.blocks.length + 1 < g → r ∈ rs) ∧
+    runRoots I.observe I.frameRoots (reset I.vals (I.blocks.length + 1)) rs = .ok (el', none)
+
+/-- One election, any two closed feeds with the same later-frame roots: same Atropos. -/
+theorem C01_election_same_result (N : Net) (f : Nat) (vals₁ vals₂ : Vals)
+    (observe₁ observe₂ : Nat → Nat → Bool) (frameRoots₁ frameRoots₂ : Nat → List Root)
+    (S₁ : Setup N vals₁ f observe₁ frameRoots₁) (S₂ : Setup N vals₂ f observe₂ frameRoots₂) (rs₁ rs₂ : List Root)
+    (hfc₁ : FeedClosed observe₁ frameRoots₁ f [] rs₁) (hfc₂ : FeedClosed observe₂ frameRoots₂ f [] rs₂)
+    (hsub : ∀ r ∈ rs₁, f < r.frame → r ∈ rs₂) (el₁ : Election) (b : Nat × Nat)
+    (h₁ : runRoots observe₁ frameRoots₁ (reset vals₁ f) rs₁ = .ok (el₁, some b)) :
+    ∃ el₂, runRoots observe₂ frameRoots₂ (reset vals₂ f) rs₂ = .ok (el₂, some b) :=
+  C10.C10_single_election_same_result N f vals₁ vals₂ observe₁ observe₂ frameRoots₁ frameRoots₂ S₁ S₂ rs₁ rs₂
+    hfc₁ hfc₂ hsub el₁ b h₁
+
+/-- C01 for block sequences, with everything that is not derived as an explicit hypothesis -/
+theorem C01_order_independent_partial (N : Net) (I₁ I₂ : Instance)
+    (hvalid : Valid N.nVals N.h) (hframes : N.FramesAccepted) (hbft : N.BFT)
+    (horacles₁ : OraclesAgree N I₁) (horacles₂ : OraclesAgree N I₂)
+    (hL5₁ : BlocksFromElections I₁) (hL5₂ : BlocksFromElections I₂)
+    (hopen₁ : OpenElection I₁) (hopen₂ : OpenElection I₂)
+    (hcons₁ : FramesConsecutive I₁) (hcons₂ : FramesConsecutive I₂) : I₁.blocks = I₂.blocks := by
+  have setup : ∀ (I : Instance), OraclesAgree N I → ∀ f, f < 4294967296 → Setup N I.vals f I.observe I.frameRoots :=
+    fun I o f hf =>
+      { vals := o.vals, obs := o.obs, roots := o.roots, nodup := o.nodup
+        creators := fun e he => (valid_ev hvalid e he).creator_lt
+        slots := N.slotUnique_of_BFT hvalid hframes hbft, accepted := hframes, fbound := hf }
+  -- an instance with fewer blocks would have decided its open election
+  have key : ∀ (I J : Instance), OraclesAgree N I → OraclesAgree N J → BlocksFromElections J → OpenElection I →
+      FramesConsecutive J → ¬ I.blocks.length < J.blocks.length := by
+    intro I J oI oJ hJ ⟨hb, rs, el', fc, hall, hrun⟩ hcons hlt
+    have hfr := hcons _ hlt
+    obtain ⟨_, rsJ, elJ, fcJ, runJ⟩ := hJ _ (List.getElem_mem hlt)
+    rw [hfr] at fcJ runJ
+    obtain ⟨el₂, h₂⟩ := C01_election_same_result N (I.blocks.length + 1) J.vals I.vals J.observe I.observe
+      J.frameRoots I.frameRoots (setup J oJ _ hb) (setup I oI _ hb) rsJ rs fcJ fc
+      (fun r hr hfr => hall r.frame r ((oI.roots _ r).2 ((oJ.roots _ r).1 (FeedClosed.mem fcJ r hr))) hfr)
+      elJ _ runJ
+    rw [hrun] at h₂
+    cases h₂
+  have hlen : I₁.blocks.length = I₂.blocks.length := by
+    have a := key I₁ I₂ horacles₁ horacles₂ hL5₂ hopen₁ hcons₂
+    have b := key I₂ I₁ horacles₂ horacles₁ hL5₁ hopen₂ hcons₁
+    omega
+  exact C01_blocks_equal_of_length N I₁ I₂ hvalid hframes hbft horacles₁ horacles₂ hL5₁ hL5₂ hcons₁ hcons₂ hlen
+
+/-- non-vacuity (`Proofs/ElectionExample.lean`: one validator, three chained events in frames 1, 2, 3):
+    an instance with computable oracles that has emitted the block `(1, 0)` satisfies every hypothesis
+    of `C01_order_independent_partial` -/
+def exInstance : Instance :=
+  ⟨ElectionExample.vals, ElectionExample.observe, ElectionExample.frameRoots, [(1, 0)]⟩
+
+example : Valid ElectionExample.net.nVals ElectionExample.net.h ∧ ElectionExample.net.FramesAccepted ∧
+    ElectionExample.net.BFT ∧ OraclesAgree ElectionExample.net exInstance ∧ BlocksFromElections exInstance ∧
+    FramesConsecutive exInstance ∧ OpenElection exInstance := by
+  have S := ElectionExample.setup 1 (by decide)
+  refine ⟨ElectionExample.valid, ElectionExample.framesAccepted, ElectionExample.bft,
+    ⟨S.vals, S.obs, S.roots, S.nodup⟩, ?_, ?_, ?_⟩
+  · intro b hb
+    have : b = (1, 0) := by simpa [exInstance] using hb
     subst this
-    unfold Net.Allowed
-    rw [if_pos (by decide)]
-    rfl
-  have h1 : C10.exNet.total = 1 := by
-    unfold Net.total
-    rw [Net.weightOf_eq]
-    show wsum _ [0] _ = 1
-    rw [wsum_cons, wsum_nil, if_pos trivial]
-    rfl
-  have hbft : C10.exNet.BFT := by
-    unfold Net.BFT
-    have h0 : C10.exNet.weightOf C10.exNet.Forker = 0 := by
-      apply Net.weightOf_zero
-      rintro v _ ⟨x, y, hne, hx, hy, _⟩
-      simp [C10.exNet] at hx hy
+    obtain ⟨el', h⟩ := ElectionExample.run1
+    exact ⟨by decide, ElectionExample.feed1, el', ElectionExample.feed1_closed, h⟩
+  · intro i h
+    have : i = 0 := by simp [exInstance] at h; omega
+    subst this; rfl
+  · obtain ⟨el', h⟩ := ElectionExample.run2
+    refine ⟨by decide, ElectionExample.feed2, el', ElectionExample.feed2_closed, ?_, h⟩
+    intro g r hr hg
+    have hg2 : 2 < g := hg
+    have h1 := ((S.roots g r).1 hr)
+    obtain ⟨h3, h4⟩ := (ElectionExample.isRoot_iff r.id g).1 h1.2.1
+    have hv : r.validator = 0 := by rw [h1.2.2, ElectionExample.creator_zero]
+    have : r = ⟨2, 3, 0⟩ := by
+      cases r
+      simp only at h1 h3 h4 hv
+      simp only [Root.mk.injEq]
       omega
-    rw [h0, h1]; decide
-  have S := setup_exists C10.exNet 1 hv hfa hbft (by rw [h1]; decide) (by decide)
-  exact ⟨hv, hfa, hbft, ⟨S.vals, S.obs, S.roots, S.nodup⟩, (by intro b hb; cases hb), (by intro i h; cases h)⟩
+    subst this
+    exact List.mem_cons_self
 
 end C01
